@@ -189,40 +189,72 @@ func apiCase(c map[string]interface{}) map[string]interface{} {
 		lists = append(lists, lo)
 	}
 	o["lists"] = lists
+	// one entry of a release request from its spec: a listed entry (optionally with the appType blanked or another IP) or
+	// literal fields
+	mkEntry := func(pm map[string]interface{}) (api.FloatingIP, bool) {
+		var e api.FloatingIP
+		if ent, ok := pm["entry"]; ok {
+			f := strList(ent)
+			return api.FloatingIP{IP: f[0], Namespace: f[1], AppName: f[2], PodName: f[3], PoolName: f[4], AppType: f[5]}, true
+		}
+		li, idx := int(Num(pm, "list")), int(Num(pm, "idx"))
+		if li >= len(listed) || len(listed[li]) == 0 {
+			return e, false
+		}
+		e = listed[li][idx%len(listed[li])]
+		if b, _ := pm["blank"].(bool); b {
+			e.AppType = ""
+		}
+		if ip := Str(pm, "ip"); ip != "" {
+			e.IP = ip
+		}
+		return e, true
+	}
+	release := func(es []api.FloatingIP) map[string]interface{} {
+		body, _ := json.Marshal(api.ReleaseIPReq{IPs: es})
+		rec := call("POST", "/v1/ip", body, ctl.ReleaseIPs)
+		var rr api.ReleaseIPResp
+		_ = json.Unmarshal(rec.Body.Bytes(), &rr)
+		un := rr.Unreleased
+		if un == nil {
+			un = []string{}
+		}
+		return map[string]interface{}{"code": rec.Code, "unreleased": un, "reasons": rr.Reason, "state": dump(ipam)}
+	}
 	posts := []interface{}{}
 	if ps, ok := c["posts"].([]interface{}); ok {
 		for _, pi := range ps {
 			pm, _ := pi.(map[string]interface{})
-			var e api.FloatingIP
-			if ent, ok := pm["entry"]; ok {
-				f := strList(ent)
-				e = api.FloatingIP{IP: f[0], Namespace: f[1], AppName: f[2], PodName: f[3], PoolName: f[4], AppType: f[5]}
-			} else {
-				li, idx := int(Num(pm, "list")), int(Num(pm, "idx"))
-				if li >= len(listed) || len(listed[li]) == 0 {
-					posts = append(posts, map[string]interface{}{"skipped": true})
-					continue
-				}
-				e = listed[li][idx%len(listed[li])]
-				if b, _ := pm["blank"].(bool); b {
-					e.AppType = ""
-				}
-				if ip := Str(pm, "ip"); ip != "" {
-					e.IP = ip
-				}
+			e, ok := mkEntry(pm)
+			if !ok {
+				posts = append(posts, map[string]interface{}{"skipped": true})
+				continue
 			}
-			body, _ := json.Marshal(api.ReleaseIPReq{IPs: []api.FloatingIP{e}})
-			rec := call("POST", "/v1/ip", body, ctl.ReleaseIPs)
-			var rr api.ReleaseIPResp
-			_ = json.Unmarshal(rec.Body.Bytes(), &rr)
-			un := rr.Unreleased
-			if un == nil {
-				un = []string{}
-			}
-			posts = append(posts, map[string]interface{}{"entry": entryObs(&e), "code": rec.Code, "unreleased": un,
-				"reasons": rr.Reason, "state": dump(ipam)})
+			po := release([]api.FloatingIP{e})
+			po["entry"] = entryObs(&e)
+			posts = append(posts, po)
 		}
 	}
+	// batches: several entries in ONE request
+	batches := []interface{}{}
+	if bs, ok := c["batches"].([]interface{}); ok {
+		for _, bi := range bs {
+			var es []api.FloatingIP
+			entries := []interface{}{}
+			specs, _ := bi.([]interface{})
+			for _, pi := range specs {
+				pm, _ := pi.(map[string]interface{})
+				if e, ok := mkEntry(pm); ok {
+					es = append(es, e)
+					entries = append(entries, entryObs(&e))
+				}
+			}
+			bo := release(es)
+			bo["entries"] = entries
+			batches = append(batches, bo)
+		}
+	}
+	o["batches"] = batches
 	o["posts"] = posts
 	_ = fmt.Sprint
 	_ = url.QueryEscape
